@@ -25,6 +25,9 @@ from .c02 import falsy_set_attributes
 DECIDED = [
     "TAB-8 _rdf_map keys are readable on the model class, accepted by the dictionary reader and map to constructor keywords",
     "PROV-7 one node per object, URI = namespace + id, the node linked from the parent is the node the attributes go to; one constant Hub",
+    "GET-1 the getters save_element reads return the object's own state (a node carries exactly its set attributes)",
+    "READ-2 the reader parses every child node the graph links: the loops that import Sections / Properties iterate the complete graph.objects(...) result",
+    "CONV-1 every export converts the current documents: get_rdf_str runs convert_to_rdf on every path",
     "PAIR-2 a node typed with a Section sub-class is declared subClassOf Section on the same path; no sub-class without the switch",
     "SEQ-1 values: one fresh rdf:Seq node per call, filled in list order; the reader iterates rdflib's Seq",
     "TRUTH-3 no set-but-falsy attribute is dropped by the writers' skip guards",
@@ -109,6 +112,55 @@ def run(prog, rep):
               "triples %s, dispatch %s" % ([t[:3] for t in tr], disp), sl.where,
               witness="a Section's attributes end up on another node / the node is not reachable from its parent")
     link_every_iteration(prog, rep, "PROV-7")
+    from . import common_tables as ct0
+    ct0.own_state_getters(prog, rep, "GET-1")
+    # ---------------------------------------------------------------- READ-2
+    rep.rule("READ-2", "RDFReader.parse_document / parse_section: every call self.parse_section(x) / self.parse_property(x) takes x from an "
+                       "iteration over the whole result of <graph>.objects(subject=..., predicate=...) (list(...) allowed): no filtered or "
+                       "partial view - a node typed with a custom sub-class is a Section like any other")
+    R0 = prog.cls("RDFReader")
+    n_child = 0
+    for mname in ("parse_document", "parse_section"):
+        pf0 = R0.lookup_method(mname)
+        if pf0 is None:
+            raise AnalysisError("RDFReader.%s vanished" % mname)
+        rep.saw_function(pf0)
+        px0 = Expander(pf0, inline=prog)
+        for e0 in effect_calls(prog, pf0, lambda c: isinstance(c.func, ast.Attribute) and c.func.attr in ("parse_section", "parse_property") and len(c.args) == 1):
+            n_child += 1
+            arg = e0.call.args[0]
+            t0 = unparse(arg)
+            core = None
+            if isinstance(arg, ast.Call) and isinstance(arg.func, ast.Name) and arg.func.id == "EACH" and arg.args:
+                core, _ = strip_order_keeping(arg.args[0])
+            if core is None and isinstance(e0.raw.args[0], ast.Name):
+                # the import is the element of a comprehension: its generator must range over the whole result, unfiltered
+                for root0 in e0.inner.expr_roots():
+                    for comp in ast.walk(root0):
+                        if isinstance(comp, (ast.ListComp, ast.GeneratorExp, ast.SetComp)) and any(y is e0.raw for y in ast.walk(comp.elt)):
+                            gens = [g0 for g0 in comp.generators if isinstance(g0.target, ast.Name) and g0.target.id == e0.raw.args[0].id]
+                            if len(gens) == 1 and not gens[0].ifs:
+                                core, _ = strip_order_keeping(e0.x.expand(gens[0].iter, e0.inner))
+            whole = isinstance(core, ast.Call) and isinstance(core.func, ast.Attribute) and core.func.attr == "objects"
+            rep.check(whole, "READ-2", "%s: %s(%s)" % (mname, e0.call.func.attr, t0[:40]), "every object of the predicate",
+                      "%s imports children from `%s`, which is not the complete graph.objects(...) result: linked nodes can be skipped silently"
+                      % (mname, t0[:90]), where(e0.func, e0.raw), witness="Sections exported with a custom sub-class map are dropped on import")
+    rep.floor("READ-2", n_child, 3, "child imports in the RDF reader")
+
+    # ---------------------------------------------------------------- CONV-1
+    rep.rule("CONV-1", "RDFWriter.get_rdf_str: every normal path calls self.convert_to_rdf() before it serialises self.graph (a writer that "
+                       "remembers an earlier conversion exports a stale graph after the documents changed)")
+    gs0 = W.lookup_method("get_rdf_str")
+    if gs0 is None:
+        raise AnalysisError("RDFWriter.get_rdf_str vanished")
+    rep.saw_function(gs0)
+    gg0 = build_cfg(gs0)
+    conv = set(e0.node.id for e0 in effect_calls(prog, gs0, lambda c: isinstance(c.func, ast.Attribute) and c.func.attr == "convert_to_rdf"))
+    from ..logic import reach_avoiding as _ra
+    ok0 = bool(conv) and not _ra(gg0, gg0.entry, gg0.exit, lambda s0, k0, d0: d0.id in conv, skip_kinds=("exc",))
+    rep.check(ok0, "CONV-1", "get_rdf_str converts on every call", "convert_to_rdf() on every path",
+              "get_rdf_str can serialise the graph without converting the documents first: a second export with the same writer misses what "
+              "was added since the first", gs0.where, witness="export, add a Section, export again with the same RDFWriter")
     repository_linked_on_every_path(prog, rep, "PROV-7")
     sd = W.lookup_method("save_document")
     g = build_cfg(sd)
